@@ -391,6 +391,15 @@ def run_lookup_variants(r, res):
                     out = t.render_unicode(**CTX)
                     if not out.startswith("FILE:%s|" % nm):
                         bad.append("renders %r" % out[:30])
+                    else:
+                        # the whole output and the def list, against the same text compiled from a string: the
+                        # body AND the defs it calls are this template's own
+                        ref_t = _st["Template"](texts[nm])
+                        exp_out = ref_t.render_unicode(**CTX)
+                        if out != exp_out:
+                            res.violate("lookup-variant-output", "lookup %s: /%s loaded beside its siblings renders %r, its text alone renders %r" % (vname, nm, out, exp_out))
+                        if sorted(t.list_defs()) != sorted(ref_t.list_defs()):
+                            res.violate("defs-differ", "lookup %s: /%s loaded beside its siblings lists defs %r, its text alone %r" % (vname, nm, sorted(t.list_defs()), sorted(ref_t.list_defs())))
                 except Exception as e:
                     bad.append("%s: %s" % (type(e).__name__, e))
                 if bad:
